@@ -420,7 +420,8 @@ public:
     {
         auto const start    = static_cast<size_type>(etl::distance(cbegin(), first));
         auto const distance = static_cast<size_type>(etl::distance(first, last));
-        TETL_PRECONDITION(size() > distance);
+        TETL_PRECONDITION(start <= size());
+        TETL_PRECONDITION(distance <= size() - start);
         etl::rotate(begin() + start, begin() + start + distance, end());
         unsafe_set_size(size() - distance);
         return begin() + start;
